@@ -215,3 +215,78 @@ def c13(tier):
 
 CHECKS["C12"] = c12
 CHECKS["C13"] = c13
+
+
+SMT_CFG = """SPECIFICATION Spec
+CONSTANTS
+  Depth = {depth}
+  Keys <- {keys}
+  Vals <- VX
+  Defaults <- {defaults}
+  MaxOps = {ops}
+  Truncations <- {trunc}
+INVARIANT IsFull
+INVARIANT GetMatches
+INVARIANT ClearedIsInitial
+INVARIANT BranchVerifies
+INVARIANT ProofInSync
+PROPERTY UpdateListIsPath
+PROPERTY ShortestListSuffices
+VIEW View
+{emit}
+CHECK_DEADLOCK FALSE
+"""
+
+
+def smt_cfg(depth=8, keys="K8s", defaults="DBoth", ops=3, trunc="TFull8", emit="ACTION_CONSTRAINT Emit"):
+    return SMT_CFG.format(depth=depth, keys=keys, defaults=defaults, ops=ops, trunc=trunc, emit=emit)
+
+
+def c14(tier):
+    rep = Report("C14", tier, LEVEL)
+    rep.assumptions += ["exhaustive for key sizes 1, 2 and 8 (thorough: 32) over small key universes; collapsed normal form identifies subtrees with equal "
+                        "Merkle hashes (collisions are outside the model)"]
+    R = "harness.smt:replay_line"
+    if tier == "quick":
+        run_s2c(rep, "MC_SMT", smt_cfg(ops=3), R)
+        run_s2c(rep, "MC_SMT", smt_cfg(depth=16, keys="K16", ops=2, trunc="TFull16"), R)
+        run_s2c(rep, "MC_SMT", smt_cfg(keys="K8", ops=12, emit="INVARIANT EmitSt"), R, simulate=dict(num=96, depth=12))
+        run_s2c(rep, "MC_SMT", smt_cfg(depth=64, keys="K64", ops=2, trunc="TFull64", defaults="DBlank"), R)
+    else:
+        run_s2c(rep, "MC_SMT", smt_cfg(depth=64, keys="K64", ops=3, trunc="TFull64"), R)
+        run_s2c(rep, "MC_SMT", smt_cfg(depth=256, keys="K256", ops=2, trunc="TFull256"), R)
+        run_s2c(rep, "MC_SMT", smt_cfg(keys="K8", ops=4), R)
+        run_s2c(rep, "MC_SMT", smt_cfg(depth=16, keys="K16", ops=3, trunc="TFull16"), R)
+        run_s2c(rep, "MC_SMT", smt_cfg(depth=16, keys="K16", ops=16, trunc="TFull16", emit="INVARIANT EmitSt"), R,
+                simulate=dict(num=2400, depth=16))
+    need(rep, ["non-blank-default", "blank-value-written", "absent-key", "calls:calc_root"])
+    return rep.finish()
+
+
+def c15(tier):
+    rep = Report("C15", tier, LEVEL)
+    rep.assumptions += ["exhaustive for key sizes 1, 2, 8 and 32 over small key universes (tracked key = any member, "
+                        "truncation lengths from a menu covering every bit position that is a branch point in the "
+                        "universe, one below and one above)"]
+    R = "harness.smt:replay_line"
+    if tier == "quick":
+        run_s2c(rep, "MC_SMT", smt_cfg(ops=2, trunc="T8"), R)
+        run_s2c(rep, "MC_SMT", smt_cfg(ops=3, trunc="T8few", defaults="DBlank", keys="K8t"), R)
+        run_s2c(rep, "MC_SMT", smt_cfg(depth=16, keys="K16", ops=2, trunc="T16few", defaults="DBlank"), R)
+        run_s2c(rep, "MC_SMT", smt_cfg(keys="K8", ops=12, trunc="T8", emit="INVARIANT EmitSt"), R,
+                simulate=dict(num=96, depth=12))
+        run_s2c(rep, "MC_SMT", smt_cfg(depth=64, keys="K64", ops=2, trunc="T64few", defaults="DBlank"), R)
+        run_s2c(rep, "MC_SMT", smt_cfg(depth=256, keys="K256", ops=1, trunc="T256few", defaults="DBlank"), R)
+    else:
+        run_s2c(rep, "MC_SMT", smt_cfg(depth=64, keys="K64", ops=3, trunc="T64few"), R)
+        run_s2c(rep, "MC_SMT", smt_cfg(depth=256, keys="K256", ops=3, trunc="T256few"), R)
+        run_s2c(rep, "MC_SMT", smt_cfg(keys="K8", ops=3, trunc="T8"), R)
+        run_s2c(rep, "MC_SMT", smt_cfg(depth=16, keys="K16", ops=3, trunc="T16few"), R)
+        run_s2c(rep, "MC_SMT", smt_cfg(depth=16, keys="K16", ops=16, trunc="T16few", emit="INVARIANT EmitSt"), R,
+                simulate=dict(num=2400, depth=16))
+    need(rep, ["proof-tracked", "truncated-list-refused", "calls:proof.update"])
+    return rep.finish()
+
+
+CHECKS["C14"] = c14
+CHECKS["C15"] = c15
